@@ -554,6 +554,14 @@ def site_rule(ctx, world, crate_names, rule, fn_filter=None, floor=None, report_
                                   f"`index < len` test of the same index and slice with no write to the index in between; {g}: the index can equal the "
                                   f"length here (out-of-bounds panic on input that ends at this point)")
                     continue
+            # a reviewed reason that rests on another call of the same function (e.g. "the date came out of a successful from_unix_timestamp")
+            if str(e.get("requires", "")).startswith("co-call:"):
+                need = e["requires"][len("co-call:"):]
+                fam = [fn] + [g for g in world.all_fns() if "body" in g and g["path"].startswith(fn["path"] + "::{closure")]
+                if not any(need in M.callee_name(c) for g in fam for b_ in M.all_bodies(g) for _, c in M.calls(b_)):
+                    ctx.violation(rule, f"{rule}:{key}:premise-lost", where,
+                                  f"the reviewed reason for this {s['kind']} site ({e['reason'][:110]}...) rests on a call of `{need}` in the same function, which is gone")
+                    continue
             ctx.ok(rule, f"{rule}:{key}", where, f"{e['cat']}: {e['reason']}" + (" [guard re-verified]" if e.get("requires") else ""))
         else:
             ctx.violation(rule, f"{rule}:{key}", where,
